@@ -449,6 +449,24 @@ def main():
             return BacktrackSolver(problem, **k)
 
         problem = build(spec)
+        rw = spec.get("rewrite")
+        if rw:  # C13 at scale: meaning-preserving rewrites of a shipped model
+            import random
+
+            from nucs.propagators.propagators import ALG_AFFINE_LEQ, ALG_DUMMY
+
+            rng = random.Random(rw["seed"])
+            nvars = len(problem.dom_indices_lst)
+            if rw.get("duplicate") and problem.propagators:
+                for _ in range(rw["duplicate"]):
+                    vs, alg, params = problem.propagators[rng.randrange(len(problem.propagators))]
+                    problem.add_propagator((list(vs), alg, list(params)))
+            if rw.get("always_true"):
+                a, b = rng.randrange(nvars), rng.randrange(nvars)
+                problem.add_propagator(([a, b], ALG_DUMMY, []))
+                problem.add_propagator(([a], ALG_AFFINE_LEQ, [1, 10 ** 6]))
+            if rw.get("shuffle"):
+                rng.shuffle(problem.propagators)
         validator = VALIDATORS[spec["model"]]
         nw = spec.get("workers", 0)
         op = spec.get("op", "find_all")
